@@ -132,13 +132,31 @@ theorem propagate_cases (m child : Frame) (res : TermRes) :
 restores the parent — the frame `p'` that is below the child when the body ends: the caller's
 frame, possibly with a lower memory counter if the body released memory of the caller (8007e69) —
 charged with what the child used -/
-theorem call_unfold (a : Acc) (d : CtxDef) (body : List Item) (a1 : Acc) (ex : Exit)
-    (hr : runBody { a with st := push a.st d } body = (a1, ex))
+theorem runItem_call (a : Acc) (d : CtxDef) (body hs : List Item) :
+    runItem a (.call d body hs) =
+      (match pop (afterBody (runCall a d body hs).2 (runCall a d body hs).1.st) with
+       | (s3, .ok) => afterPop (runCall a d body hs).1 (runCall a d body hs).2
+           (afterBody (runCall a d body hs).2 (runCall a d body hs).1.st) s3.cur s3.parents
+       | (s3, .terminated) => ({ (runCall a d body hs).1 with st := s3 },
+           .killed (popCause (afterBody (runCall a d body hs).2 (runCall a d body hs).1.st).parents.head!
+             (afterBody (runCall a d body hs).2 (runCall a d body hs).1.st).cur))
+       | (s3, .crash) => ({ (runCall a d body hs).1 with st := s3 }, .crashed)) := by
+  conv => lhs; unfold runItem
+  unfold runCall
+  cases runBody { a with st := push a.st d } body with
+  | mk a1 e =>
+    cases e <;> simp only <;>
+      (first
+        | (cases hp : pop (afterBody _ _) with
+           | mk s3 po => cases po <;> rfl))
+
+theorem call_unfold (a : Acc) (d : CtxDef) (body hs : List Item) (a1 : Acc) (ex : Exit)
+    (hr : runCall a d body hs = (a1, ex))
     (gb : Good { a with st := push a.st d } a1 ex) (hl : a.st.cur.live = true) :
     ∃ p' ps', a1.st.parents = p' :: ps' ∧ Lower p' a.st.cur ∧ LowerL ps' a.st.parents ∧
       FrameOk (afterBody ex a1.st).cur ∧ Chain (afterBody ex a1.st).cur p' ∧ FrameOk p' ∧ p'.live = true ∧
       ChainInv p' ps' ∧
-      runItem a (.call d body) =
+      runItem a (.call d body hs) =
         afterPop a1 ex (afterBody ex a1.st) (charged p' (afterBody ex a1.st).cur) ps' := by
   have hpar : LowerL a1.st.parents (a.st.cur :: a.st.parents) := gb.parents
   cases hps : a1.st.parents with
@@ -157,8 +175,25 @@ theorem call_unfold (a : Acc) (d : CtxDef) (body : List Item) (a1 : Acc) (ex : E
         rw [← hpar2] at this
         exact this
       refine ⟨p', ps', rfl, hlp, hlps, hc2, hcp, hp, hpl, hrest, ?_⟩
-      unfold runItem
-      simp only [hr, hpop]
+      rw [runItem_call, hr]
+      simp only [hpop]
+
+/-- the body and its pending handlers together, given what is known of each -/
+theorem good_call_of {a : Acc} {d : CtxDef} {body hs : List Item}
+    (gb : Good { a with st := push a.st d } (runBody { a with st := push a.st d } body).1
+      (runBody { a with st := push a.st d } body).2)
+    (gh : ∀ (a1 : Acc) (e : Exit), Inv a1.st → a1.st.cur.live = true → (e = .done ∨ e = .error) →
+      Good a1 (runHandlers a1 e hs).1 (runHandlers a1 e hs).2) :
+    Good { a with st := push a.st d } (runCall a d body hs).1 (runCall a d body hs).2 := by
+  unfold runCall
+  cases hr : runBody { a with st := push a.st d } body with
+  | mk a1 e =>
+    rw [hr] at gb
+    cases e with
+    | done => exact gb.trans (gh a1 .done gb.inv (gb.live (fun _ h => nomatch h)) (Or.inl rfl))
+    | error => exact gb.trans (gh a1 .error gb.inv (gb.live (fun _ h => nomatch h)) (Or.inr rfl))
+    | killed r => exact gb
+    | crashed => exact gb
 
 mutual
   theorem good_body (a : Acc) (body : List Item) (hw : wfBody body = true) (hi : Inv a.st)
@@ -181,6 +216,28 @@ mutual
         | killed r => exact g1
         | crashed => exact g1
 
+  theorem good_handlers (a : Acc) (e : Exit) (hs : List Item) (hw : wfBody hs = true) (hi : Inv a.st)
+      (hl : a.st.cur.live = true) (he : e = .done ∨ e = .error) :
+      Good a (runHandlers a e hs).1 (runHandlers a e hs).2 := by
+    match hs with
+    | [] =>
+      unfold runHandlers
+      refine ⟨hi, LowerL.refl _, rfl, ⟨rfl, rfl⟩, fun _ => hl, (fun r h => ?_), fun h => h⟩
+      rcases he with rfl | rfl <;> cases h
+    | h :: rest =>
+      have hw' : h.wf = true ∧ wfBody rest = true := by
+        have := hw; unfold wfBody at this; simpa using this
+      have g1 := good_item a h hw'.1 hi hl
+      unfold runHandlers
+      cases hr : runItem a h with
+      | mk a1 e1 =>
+        rw [hr] at g1
+        cases e1 with
+        | done => exact g1.trans (good_handlers a1 e rest hw'.2 g1.inv (g1.live (fun _ h => nomatch h)) he)
+        | error => exact g1.trans (good_handlers a1 .error rest hw'.2 g1.inv (g1.live (fun _ h => nomatch h)) (Or.inr rfl))
+        | killed r => exact g1
+        | crashed => exact g1
+
   theorem good_item (a : Acc) (it : Item) (hw : it.wf = true) (hi : Inv a.st)
       (hl : a.st.cur.live = true) : Good a (runItem a it).1 (runItem a it).2 := by
     match it with
@@ -200,14 +257,16 @@ mutual
         exact ⟨hinv, hs.1, hh, hin, fun h => absurd rfl (h _), fun _ _ => hs.2.2 hout, fun h => h⟩
       | crash =>
         exact ⟨hinv, hs.1, hh, hin, fun _ => hs.2.1 (by rw [hout]; decide), (fun _ h => nomatch h), fun h => h⟩
-    | .call d body =>
-      have hwb : wfBody body = true := by unfold Item.wf at hw; exact hw
+    | .call d body hs =>
+      have hw' : wfBody body = true ∧ wfBody hs = true := by
+        have := hw; unfold Item.wf at this; simpa using this
       have hi0 : Inv (push a.st d) := inv_step (.push d) hi hl
-      have gb := good_body { a with st := push a.st d } body hwb hi0 rfl
-      cases hr : runBody { a with st := push a.st d } body with
+      have gb0 := good_body { a with st := push a.st d } body hw'.1 hi0 rfl
+      have gb := good_call_of (hs := hs) gb0 (fun a1 e hi1 hl1 he => good_handlers a1 e hs hw'.2 hi1 hl1 he)
+      cases hr : runCall a d body hs with
       | mk a1 ex =>
         rw [hr] at gb
-        obtain ⟨p', ps', _, hlp, hlps, hc2, hcp, hp, hpl, hrest, hrun⟩ := call_unfold a d body a1 ex hr gb hl
+        obtain ⟨p', ps', _, hlp, hlps, hc2, hcp, hp, hpl, hrest, hrun⟩ := call_unfold a d body hs a1 ex hr gb hl
         rw [hrun]
         have hs := charged_same p' (afterBody ex a1.st).cur
         have hh3 : (charged p' (afterBody ex a1.st).cur).hard = a.st.cur.hard := hs.1.trans hlp.same.1
@@ -260,5 +319,19 @@ mutual
                 (ps := ps') rfl rfl hinv3.2⟩
             exact ⟨hk, hlps, hh3, hin3, fun h => absurd rfl (h res), fun _ _ => rfl, gb.truthful⟩
 end
+
+/-- the body of a call together with its pending close handlers -/
+theorem good_call (a : Acc) (d : CtxDef) (body hs : List Item) (hwb : wfBody body = true) (hwh : wfBody hs = true)
+    (hi : Inv a.st) (hl : a.st.cur.live = true) :
+    Good { a with st := push a.st d } (runCall a d body hs).1 (runCall a d body hs).2 :=
+  good_call_of (good_body { a with st := push a.st d } body hwb (inv_step (.push d) hi hl) rfl)
+    (fun a1 e hi1 hl1 he => good_handlers a1 e hs hwh hi1 hl1 he)
+
+/-- without pending handlers the call runs just its body -/
+theorem runCall_nil (a : Acc) (d : CtxDef) (body : List Item) :
+    runCall a d body [] = runBody { a with st := push a.st d } body := by
+  unfold runCall
+  cases runBody { a with st := push a.st d } body with
+  | mk a1 e => cases e <;> rfl
 
 end GoluaVerif.Proofs.CallCtx
